@@ -212,12 +212,9 @@ func (e *Engine) findDFA(haystack []byte) *Match {
 	// This is O(m) where m = match length, not O(n)
 	// For patterns without prefilter, estimate start position
 	// and search from there
-	estimatedStart := 0
-	if endPos > 100 {
-		// For long haystacks, start search closer to the match end
-		estimatedStart = endPos - 100
-	}
-	start, end, matched := e.pikevm.SearchAt(haystack, estimatedStart)
+	// (the start can be arbitrarily far before endPos: search from the beginning,
+	// not from a guessed offset)
+	start, end, matched := e.pikevm.SearchAt(haystack, 0)
 	if !matched {
 		return nil
 	}
@@ -273,12 +270,9 @@ func (e *Engine) findAdaptive(haystack []byte) *Match {
 		if endPos != -1 {
 			e.putSearchState(state)
 			// DFA succeeded - get exact match bounds from NFA
-			// Use estimated start position for O(m) search instead of O(n)
-			estimatedStart := 0
-			if endPos > 100 {
-				estimatedStart = endPos - 100
-			}
-			start, end, matched := e.pikevm.SearchAt(haystack, estimatedStart)
+			// (the start can be arbitrarily far before endPos: search from the
+			// beginning, not from a guessed offset)
+			start, end, matched := e.pikevm.SearchAt(haystack, 0)
 			if !matched {
 				return nil
 			}
